@@ -220,8 +220,11 @@ def verdict_on(cpu, mode64, data):
     data = bytes(data) + b"\x90" * (16 - len(data))
     if not TOOLS.available():
         return ("outside", "reference disassemblers not installed")
-    o = TOOLS.objdump_first(data, mode64)
-    l = TOOLS.llvm_first(data, mode64)
+    try:
+        o = TOOLS.objdump_first(data, mode64)
+        l = TOOLS.llvm_first(data, mode64)
+    except TOOLS.ToolTimeout as ex:
+        return ("outside", "no verdict: %s" % ex)
     if not (o[0] and l[0]):
         return ("outside", "rejected by %s" % ("both tools" if not (o[0] or l[0]) else ("objdump" if not o[0] else "llvm-mc")))
     if o[1] != l[1]:
